@@ -28,7 +28,7 @@ func init() {
 		Race:         true,
 		RaceAdvisory: true, // client-side races are judged by C20; here they are only counted
 		CaseTimeout:  200e9,
-		Rule: "two kinds of cases. (a) notification content / count, deterministic, direct mode: scenarios of C05's generator; after every request and server idleness the MQTT stand-in's publish log must have grown by exactly one message on <collection>/<key> carrying {CUID: pusher, DUID, sseq: new end of log} for every datatype of the request that stored >= 1 operation, and by none otherwise. (b) realtime: 2-5 REALTIME SDK clients over real grpc and real paho clients on the MQTT stand-in (deliveries delayed at random; responses of served requests held back 0-5 ms so that notifications overtake them; a solo client loses 40 % of the responses to its pushes) subscribe, complete their first sync (for the second client of half of the cases the broker takes 40-160 ms to process the SUBSCRIBE packet; the moment that client's state-change handler reports SUBSCRIBED the first client issues one operation, nothing else happens, and the quiescence oracle below must find both equal; in a quarter of the cases a notification naming another datatype id with a huge sequence number is then delivered on the key's topic) and then only issue local operations and small committed transactions from their own goroutines at random moments, no Sync() call; after the last operation the harness waits for logical quiescence (no RPC in flight, no queued delivery, no announced background goroutine, no database command in progress, and no new RPC / publish event during a 2 s silence window) and then requires equal state on all clients and nothing left to push; then an epilogue steered by logical events follows, with the same quiescence oracle: A's next push is held at the front after it was served and either (0) A issues a second operation and the notification of a push B made earlier (deliveries were held at the broker) is released to A during that flight, (1) B pushes after A's request was served and its notification reaches A during that flight, or (2) two held notifications of B are released together - the first starts A's pull, the second waits in A's queue - and a third push of B is announced while A's receive loop is busy; then nothing else happens; no client may start a push-pull because of a notification that its own push caused (hook events dm.notification / dm.sync.on-notification joined on receiver and sseq; a solo client, all of whose notifications are its own, must also issue no more push-pull RPCs than its local operations started); the run is under the race detector; " +
+		Rule: "two kinds of cases. (a) notification content / count, deterministic, direct mode: scenarios of C05's generator; one request in five is a REST patch of a stored document (a push by the server's patch client); after every request and server idleness the MQTT stand-in's publish log must have grown by exactly one message on <collection>/<key> carrying {CUID: pusher, DUID, sseq: new end of log} for every datatype of the request that stored >= 1 operation, and by none otherwise. (b) realtime: 2-5 REALTIME SDK clients over real grpc and real paho clients on the MQTT stand-in (deliveries delayed at random; responses of served requests held back 0-5 ms so that notifications overtake them; a solo client loses 40 % of the responses to its pushes) subscribe, complete their first sync (for the second client of half of the cases the broker takes 40-160 ms to process the SUBSCRIBE packet; the moment that client's state-change handler reports SUBSCRIBED the first client issues one operation, nothing else happens, and the quiescence oracle below must find both equal; in a quarter of the cases a notification naming another datatype id with a huge sequence number is then delivered on the key's topic) and then only issue local operations and small committed transactions from their own goroutines at random moments, no Sync() call; after the last operation the harness waits for logical quiescence (no RPC in flight, no queued delivery, no announced background goroutine, no database command in progress, and no new RPC / publish event during a 2 s silence window) and then requires equal state on all clients and nothing left to push; then an epilogue steered by logical events follows, with the same quiescence oracle: A's next push is held at the front after it was served and either (0) A issues a second operation and the notification of a push B made earlier (deliveries were held at the broker) is released to A during that flight, (1) B pushes after A's request was served and its notification reaches A during that flight, or (2) two held notifications of B are released together - the first starts A's pull, the second waits in A's queue - and a third push of B is announced while A's receive loop is busy; then nothing else happens; no client may start a push-pull because of a notification that its own push caused (hook events dm.notification / dm.sync.on-notification joined on receiver and sseq; a solo client, all of whose notifications are its own, must also issue no more push-pull RPCs than its local operations started); the run is under the race detector; " +
 			"non-trivial = (a) >= 3 requests stored operations and >= 1 stored none; (b) >= 2 clients issued operations concurrently; distinct = hash of the script (a) / of the observed RPC order (b)",
 		Assumptions: []string{
 			"'converge by themselves' is decided as bounded progress to logical quiescence; not quiescent within 60 s => inconclusive",
